@@ -244,9 +244,13 @@ impl RetryBudget for TokenBucketBudget {
 
     fn deposit(&self) {
         const SCALE: u64 = 1000;
-        let current = self.tokens.load(Ordering::Relaxed);
-        let new_tokens = (current + SCALE).min(self.max_tokens);
-        self.tokens.store(new_tokens, Ordering::Relaxed);
+        let max_tokens = self.max_tokens;
+        // Single atomic read-modify-write so concurrent withdrawals are never overwritten
+        let _ = self
+            .tokens
+            .fetch_update(Ordering::Relaxed, Ordering::Relaxed, |current| {
+                Some(current.saturating_add(SCALE).min(max_tokens))
+            });
     }
 
     fn balance(&self) -> usize {
@@ -326,11 +330,15 @@ impl RetryBudget for AimdBudget {
 
     fn deposit(&self) {
         let current_max = self.limit_controller.limit() as u64;
-        let current = self.tokens.load(Ordering::Relaxed);
+        let deposit_amount = self.deposit_amount;
 
-        // Additive increase: add deposit amount, cap at current max
-        let new_tokens = (current + self.deposit_amount).min(current_max);
-        self.tokens.store(new_tokens, Ordering::Relaxed);
+        // Additive increase: add deposit amount, cap at current max.
+        // Single atomic read-modify-write so concurrent withdrawals are never overwritten.
+        let _ = self
+            .tokens
+            .fetch_update(Ordering::Relaxed, Ordering::Relaxed, |current| {
+                Some(current.saturating_add(deposit_amount).min(current_max))
+            });
 
         // Also slowly increase the max back toward absolute max via controller
         self.limit_controller.record_success();
